@@ -52,6 +52,28 @@ func (s *Server) Definition(ctx context.Context, params *protocol.DefinitionPara
 }
 
 func findDefinitionTarget(journal *ast.Journal, pos protocol.Position) *definitionTarget {
+	// the name in an account or commodity directive is an occurrence of the symbol too
+	for _, dir := range journal.Directives {
+		switch d := dir.(type) {
+		case ast.AccountDirective:
+			if d.Account.Range.End.Line != 0 && positionInRange(pos, d.Account.Range) {
+				return &definitionTarget{
+					context:     DefContextAccount,
+					name:        d.Account.Name,
+					symbolRange: astRangeToProtocol(d.Account.Range),
+				}
+			}
+		case ast.CommodityDirective:
+			if d.Commodity.Symbol != "" && d.Commodity.Range.End.Line != 0 && positionInRange(pos, d.Commodity.Range) {
+				return &definitionTarget{
+					context:     DefContextCommodity,
+					name:        d.Commodity.Symbol,
+					symbolRange: astRangeToProtocol(d.Commodity.Range),
+				}
+			}
+		}
+	}
+
 	for i := range journal.Transactions {
 		tx := &journal.Transactions[i]
 
